@@ -168,7 +168,29 @@ func runWgAddStarts(c *Ctx) {
 		})
 	}
 	if n == 0 {
-		c.Bad("wg-add-starts/none", token.NoPos, "found no WaitGroup.Add inside a loop in internal/ice")
+		// all dials counted in one Add in front of the loop: nothing is counted per iteration, so nothing can be counted and skipped
+		anyAdd := false
+		for _, f := range p.FuncsIn("internal/ice") {
+			if f.Body == nil || strings.HasSuffix(p.Fset.Position(f.Pos()).Filename, "_test.go") {
+				continue
+			}
+			info := f.Info()
+			ast.Inspect(f.Body, func(m ast.Node) bool {
+				if call, ok := m.(*ast.CallExpr); ok {
+					if sel, ok := ast.Unparen(call.Fun).(*ast.SelectorExpr); ok && sel.Sel.Name == "Add" {
+						if t := info.TypeOf(sel.X); t != nil && strings.HasSuffix(strings.TrimPrefix(t.String(), "*"), "sync.WaitGroup") {
+							anyAdd = true
+						}
+					}
+				}
+				return true
+			})
+		}
+		if anyAdd {
+			c.OK("wg-add-starts/none", token.NoPos, "no WaitGroup.Add inside a loop in internal/ice (the dials are counted in front of it)")
+		} else {
+			c.Bad("wg-add-starts/none", token.NoPos, "found no WaitGroup.Add in internal/ice")
+		}
 	}
 }
 
@@ -566,4 +588,160 @@ func runControlStreamPinned(c *Ctx) {
 	c.Check(pinned, "control-pinned/first-accept", f.Pos(), "the first accepted stream is the first connection's",
 		"multiConn.AcceptStream does not take its first stream from conns[0] under a once-only election: the sender opens its control stream on the first connection, but a receiver that starts accepting late finds streams pending on several connections - "+
 			"a data stream (or one opened and not yet written) is read as the manifest header: `invalid manifest magic`, or both sides hang")
+}
+
+func init() {
+	Register(&Rule{
+		Name:  "R-WRITER-WAIT-BOUNDED",
+		Props: []string{"C11"},
+		Min:   1,
+		Doc: "the hub never waits for a connection's writer without a bound: in internal/peers every receive from a peerConnection's done channel is a clause of a select that also has a timer clause (time.After / a Timer's C) - " +
+			"the server's send function writes to the socket without a deadline, so the writer of a peer whose socket is stalled when it leaves never ends: an unbounded wait in remove keeps the handler from its clean-up, the empty session stays in the hub and nobody is told that the peer left",
+		Run: runWriterWaitBounded,
+	})
+	Register(&Rule{
+		Name:  "R-RESOLVER-SKIPS-LIKE-SCANNER",
+		Props: []string{"C13", "C01"},
+		Min:   1,
+		Doc: "the host's path resolver walks the selections as the scanner does: buildPathResolver skips a selection (a `continue` under a map look-up: `already seen`) only if manifest.ScanPaths skips it in the same way - " +
+			"the ordinal prefixes of equal base names are counted over the selections each of them keeps; a resolver that drops a location typed twice knows `docs` where the manifest lists `1_docs` and `2_docs`, and the listed files resolve to nothing (or, with a third selection, to another source)",
+		Run: runResolverSkipsLikeScanner,
+	})
+}
+
+func runWriterWaitBounded(c *Ctx) {
+	p := c.P
+	n := 0
+	per := map[string]int{}
+	for _, f := range p.FuncsIn("internal/peers") {
+		if f.Body == nil || strings.HasSuffix(p.Fset.Position(f.Pos()).Filename, "_test.go") {
+			continue
+		}
+		info := f.Info()
+		isDone := func(e ast.Expr) bool {
+			u, ok := ast.Unparen(e).(*ast.UnaryExpr)
+			if !ok || u.Op != token.ARROW {
+				return false
+			}
+			sel, ok := ast.Unparen(u.X).(*ast.SelectorExpr)
+			if !ok || sel.Sel.Name != "done" {
+				return false
+			}
+			t := info.TypeOf(sel.X)
+			return t != nil && strings.HasSuffix(strings.TrimPrefix(t.String(), "*"), "peerConnection")
+		}
+		ast.Inspect(f.Body, func(m ast.Node) bool {
+			switch st := m.(type) {
+			case *ast.ExprStmt:
+				if isDone(st.X) {
+					if _, inComm := enclosingCommHead(f.Body, st); !inComm {
+						n++
+						per[f.Name]++
+						c.Bad(fmt.Sprintf("writer-wait/%s#%d", f.Name, per[f.Name]), st.Pos(), f.Name+" waits for a connection's writer with a bare receive: the writer sits in a socket write that has no deadline for as long as the peer's socket is stalled - "+
+							"the remove function never returns, the handler never reaches its clean-up, the empty session stays routable and its peers are never told")
+					}
+				}
+			case *ast.SelectStmt:
+				hasDone, hasTimer := false, false
+				for _, cl := range st.Body.List {
+					cc := cl.(*ast.CommClause)
+					if cc.Comm == nil {
+						hasTimer = true // default: no wait at all
+						continue
+					}
+					if es, ok := cc.Comm.(*ast.ExprStmt); ok && isDone(es.X) {
+						hasDone = true
+						continue
+					}
+					rcv := types.ExprString(commRecvExpr(cc))
+					if strings.Contains(rcv, "time.After") || strings.HasSuffix(rcv, ".C") || strings.Contains(rcv, "Done()") {
+						hasTimer = true
+					}
+				}
+				if hasDone {
+					n++
+					per[f.Name]++
+					c.Check(hasTimer, fmt.Sprintf("writer-wait/%s#%d", f.Name, per[f.Name]), st.Pos(), "the wait for the writer has a timer clause",
+						f.Name+" waits for a connection's writer in a select without a timer clause: with a stalled socket the wait never ends")
+				}
+			}
+			return true
+		})
+	}
+	if n == 0 {
+		c.Bad("writer-wait/none", token.NoPos, "found no wait for a peerConnection's done channel in internal/peers")
+	}
+}
+
+// enclosingCommHead: st is the communication of a select clause (not a statement of its body).
+func enclosingCommHead(root ast.Node, st ast.Stmt) (*ast.CommClause, bool) {
+	var found *ast.CommClause
+	ast.Inspect(root, func(m ast.Node) bool {
+		if cc, ok := m.(*ast.CommClause); ok && cc.Comm == st {
+			found = cc
+		}
+		return true
+	})
+	return found, found != nil
+}
+
+func runResolverSkipsLikeScanner(c *Ctx) {
+	p := c.P
+	res := p.Func("app.buildPathResolver")
+	scan := p.Func("manifest.ScanPaths")
+	if res == nil || scan == nil {
+		c.MissingAnchor("app.buildPathResolver / manifest.ScanPaths")
+		return
+	}
+	// `continue` under a map look-up, in loops of the function body (literals excluded)
+	skips := func(f *FuncInfo) []token.Pos {
+		info := f.Info()
+		var out []token.Pos
+		InspectNoLits(f.Body, func(m ast.Node) bool {
+			is, ok := m.(*ast.IfStmt)
+			if !ok {
+				return true
+			}
+			lookup := false
+			check := func(e ast.Expr) {
+				ast.Inspect(e, func(k ast.Node) bool {
+					if ix, ok := k.(*ast.IndexExpr); ok {
+						if _, isMap := types.Unalias(info.TypeOf(ix.X)).Underlying().(*types.Map); isMap {
+							lookup = true
+						}
+					}
+					return true
+				})
+			}
+			if as, ok := is.Init.(*ast.AssignStmt); ok {
+				for _, r := range as.Rhs {
+					check(r)
+				}
+			}
+			check(is.Cond)
+			if !lookup {
+				return true
+			}
+			for _, st := range is.Body.List {
+				if bs, ok := st.(*ast.BranchStmt); ok && bs.Tok == token.CONTINUE {
+					out = append(out, bs.Pos())
+				}
+			}
+			return true
+		})
+		return out
+	}
+	rs, ss := skips(res), skips(scan)
+	if len(rs) == len(ss) {
+		c.OK("resolver-skips/agree", res.Pos(), fmt.Sprintf("resolver and scanner skip selections under a map look-up equally often (%d)", len(rs)))
+		return
+	}
+	pos := res.Pos()
+	if len(rs) > 0 {
+		pos = rs[0]
+	} else if len(ss) > 0 {
+		pos = ss[0]
+	}
+	c.Bad("resolver-skips/agree", pos, fmt.Sprintf("buildPathResolver skips a selection under a map look-up %d time(s), manifest.ScanPaths %d time(s): the two count the ordinal prefixes of equal base names over different lists of selections - "+
+		"what the manifest lists as 1_docs / 2_docs the resolver knows as docs (or under another ordinal), and listed files resolve to nothing or to another source", len(rs), len(ss)))
 }
